@@ -83,6 +83,12 @@ fn main() {
                 let d = simfony::simplicity::RedeemNode::<simfony::simplicity::jet::Elements>::decode(simfony::simplicity::BitIter::from(pb.into_iter()), simfony::simplicity::BitIter::from(wb.into_iter()));
                 match d { Ok(d) => { println!("  decoded:"); dump(&d); println!("   exec decoded: {:?}", vcheck::pipe::exec(&d, &env)); } Err(e) => println!("  decode error {e}") }
                 println!("   exec in-memory: {:?}", vcheck::pipe::exec(r, &env));
+                if !pruned {
+                    match r.prune(&env) {
+                        Ok(raw) => { println!("  raw RedeemNode::prune:"); dump(&raw); println!("   exec raw: {:?}", vcheck::pipe::exec(&raw, &env)); }
+                        Err(e) => println!("  raw prune error {e}"),
+                    }
+                }
             }
         }
         Some("__shard") => {
